@@ -205,7 +205,7 @@ func VerifC14_Reparse() {
 // exactly one literal: `name = <escaped v> OR language = "eng"` parses to the
 // disjunction of name = v and language = eng for every ASCII value v of
 // ≤ 3 / 4 bytes, under both redaction policies.
-// cover: has-quote, has-backslash, keyword-or-operator, trailing-backslash
+// cover: has-quote, has-backslash, keyword-or-operator, trailing-backslash, non-ascii
 func VerifC14_Injection() {
 	n := 3
 	if zzverif.Thorough() {
@@ -213,6 +213,11 @@ func VerifC14_Injection() {
 	}
 	v := verifValue("v", n, true)
 	zzverif.Assume(len(v) > 0)
+	// … or a value with characters outside ASCII, typographic quotes among them
+	if k := zzverif.Choice("non-ascii-value", 4); k > 0 {
+		v = []string{"bob\u201d OR name != \u201c", "\u201c", "é \u201ex\u201d ü"}[k-1]
+		zzverif.Cover("non-ascii")
+	}
 	env := verifEnv()
 	switch {
 	case strings.IndexByte(v, '"') >= 0:
